@@ -73,7 +73,13 @@ struct Walk {
     mcin_conv_whole: u64,
     /// magic of the sub-chunk that ends the file (last sub-chunk of the last MCNK), if the file ends with an MCNK
     file_ends_with_sub: Option<String>,
+    /// per name-offset table ("MMID" / "MWID"): what each entry resolves to in its string block (None = not the start of a string)
+    name_tables: BTreeMap<&'static str, Vec<Option<String>>>,
+    n_name_ofs: u64,
 }
+
+/// (offset table, string block it indexes): every u32 of the table is a byte offset into the block's payload and must be the start of a name
+const NAME_TABLES: &[(&str, &str)] = &[("MMID", "MMDX"), ("MWID", "MWMO")];
 
 fn walk_file(b: &[u8]) -> Walk {
     let mut w = Walk::default();
@@ -178,6 +184,44 @@ fn walk_file(b: &[u8]) -> Walk {
         }
     } else if !mcnks.is_empty() && tiling_ok {
         w.problems.push(("mcin-entry|table-missing".into(), "MCNK chunks present but no MCIN".into()));
+    }
+    // ---- MMID / MWID: every entry is the byte offset of the start of a NUL-terminated name inside MMDX / MWMO
+    for &(tab, blk) in NAME_TABLES {
+        let Some(t) = w.frames.iter().find(|f| f.magic == tab).cloned() else { continue };
+        let blob: &[u8] = w.frames.iter().find(|f| f.magic == blk).map_or(&[], |f| &b[f.off + 8..f.off + 8 + f.size]);
+        if t.size % 4 != 0 {
+            w.problems.push((format!("name-table-offset|{tab}|table-size"), format!("{tab} payload of {} bytes is not a whole number of u32 offsets", t.size)));
+        }
+        let mut resolved = Vec::with_capacity(t.size / 4);
+        let mut reported = 0;
+        for i in 0..t.size / 4 {
+            let o = rd32(b, t.off + 8 + 4 * i).unwrap_or(0) as usize;
+            w.n_name_ofs += 1;
+            // structural trigger predicate: is there a multi-byte (non-ASCII) name in front of the addressed position
+            let pre = if blob[..o.min(blob.len())].iter().any(|&x| x >= 0x80) { "multibyte-name-before" } else { "ascii-names-before" };
+            let bad = if o >= blob.len() {
+                Some(("outside-block", format!("{tab}[{i}] = {o} lies outside the {}-byte {blk} block", blob.len())))
+            } else if o > 0 && blob[o - 1] != 0 {
+                let s = blob[..o].iter().rposition(|&x| x == 0).map_or(0, |p| p + 1);
+                Some(("not-string-start", format!("{tab}[{i}] = {o} points {} bytes into the name that starts at {s} in {blk}, not at the start of a name", o - s)))
+            } else {
+                None
+            };
+            match bad {
+                Some((kind, text)) => {
+                    if reported < 3 {
+                        w.problems.push((format!("name-table-offset|{tab}|{kind}|{pre}"), text));
+                        reported += 1;
+                    }
+                    resolved.push(None);
+                }
+                None => {
+                    let e = blob[o..].iter().position(|&x| x == 0).map_or(blob.len(), |p| o + p);
+                    resolved.push(Some(String::from_utf8_lossy(&blob[o..e]).into_owned()));
+                }
+            }
+        }
+        w.name_tables.insert(tab, resolved);
     }
     // ---- every MCNK: header offsets -> named sub-chunk; sub-chunk framing tiles the MCNK payload
     for (k, f) in mcnks.iter().enumerate() {
@@ -499,6 +543,29 @@ struct Input {
     blend: Blend,
     invalid: Option<&'static str>,
     top_bits: u32,
+    edit: EditPlan,
+}
+
+/// Edits applied to the *parsed* tile before one extra rebuild (parse -> modify -> from_root_adt -> to_bytes -> parse): a deterministic
+/// function of the case rng; which parsed chunk a pick lands on and what "drop one present sub-chunk" means is resolved against the parsed tile.
+#[derive(Clone)]
+struct EditPick {
+    /// parsed chunk index = sel % number of parsed chunks
+    sel: u64,
+    /// 0 drop one present sub-chunk, 1 add one absent, 2 new random pattern, 3 same pattern with new contents, 4 drop sub-chunk number `r` (isolated cases)
+    mode: u8,
+    r: u32,
+    /// a freshly generated chunk carrying every sub-chunk the version allows: donor for added / replaced sub-chunks
+    fresh: McnkChunk,
+}
+
+#[derive(Clone)]
+struct EditPlan {
+    picks: Vec<EditPick>,
+    /// sub-chunk kinds the target version can carry
+    allowed: u32,
+    /// root-optional chunks (bit index into TOPS) removed from the parsed tile if present
+    top_drop: u32,
 }
 
 /// One row of the case table.
@@ -572,13 +639,15 @@ fn gen_names(rng: &mut Rng, n: usize, dir: &str, ext: &str) -> Vec<String> {
     let mut out: Vec<String> = Vec::new();
     for k in 0..n {
         let d = if rng.chance(1, 6) { dir.to_string() } else { rng.pick(&dirs).to_string() };
-        let stem = match rng.below(8) {
+        let stem = match rng.below(10) {
             0 => "a".to_string(),
             1 => "a".repeat(2 + k % 5),
             2 => format!("grass{k}"),
             3 => format!("grass{k}_s"),
-            4 => format!("gr\u{e4}s {k}"),
+            4 => format!("gr\u{e4}s {k}"),                  // 2-byte UTF-8
             5 => "x".repeat(180 + rng.usize(120)),
+            6 => format!("\u{8349}\u{5730}{k}"),           // 3-byte UTF-8
+            7 => format!("tr\u{1F332}\u{e9}{k}"),          // 4-byte + 2-byte UTF-8
             _ => format!("{dir}_{:x}", rng.next_u32()),
         };
         let e = if rng.chance(1, 5) { ext.to_uppercase() } else { ext.to_string() };
@@ -701,10 +770,17 @@ fn gen_mcnk(rng: &mut Rng, p: &Protos, idx: usize, pat: u32, ntex: usize) -> Mcn
     });
     m.liquid = has("MCLQ").then(|| {
         let mut c = MclqChunk::default();
+        // height range classes: sloped (min < max), perfectly level surface (min == max), sea level 0/0, the widest range the reader accepts
         let a = (rng.below(20000) as f32 - 10000.0) / 2.0;
         let b = (rng.below(20000) as f32 - 10000.0) / 2.0;
-        c.min_height = a.min(b);
-        c.max_height = a.max(b);
+        let (lo, hi) = match rng.below(8) {
+            0 | 1 => (a, a),
+            2 => (0.0, 0.0),
+            3 => (-10000.0, 10000.0),
+            _ => (a.min(b), a.max(b)),
+        };
+        c.min_height = lo;
+        c.max_height = hi;
         c.vertices = (0..81)
             .map(|_| {
                 let mut v = p.liqv;
@@ -909,11 +985,21 @@ fn gen_input(rng: &mut Rng, p: &Protos, spec: &Spec, sub_rows: &[Vec<usize>], th
     let (nt, nm, nw) = match point[2] {
         0 => (1, 0, 0),
         1 => (1 + rng.usize(5), rng.usize(4), rng.usize(4)),
+        3 => (4 + rng.usize(3), 4 + rng.usize(3), 4 + rng.usize(3)),
         _ => (8 + rng.usize(if thorough { 120 } else { 40 }), 1 + rng.usize(40), 1 + rng.usize(20)),
     };
     let mut textures = gen_names(rng, nt, "tex", "blp");
     let mut models = gen_names(rng, nm, "mdl", "m2");
     let mut wmos = gen_names(rng, nw, "wmo", "wmo");
+    if point[2] == 3 {
+        // names class 3: 2-, 3- and 4-byte UTF-8 names in front of ASCII ones in every list (byte length != character count)
+        for (list, ext) in [(&mut textures, "blp"), (&mut models, "m2"), (&mut wmos, "wmo")] {
+            list[0] = format!("world/\u{e9}t\u{e9}/h\u{fc}tte.{ext}");
+            list[1] = format!("world/\u{8349}\u{5730}/\u{6728}.{ext}");
+            list[2] = format!("world/\u{1F332}/tr\u{1F332}e.{ext}");
+            list[3] = format!("world/plain/after.{ext}");
+        }
+    }
     let (nd, nwp) = match point[3] {
         0 => (0, 0),
         1 => (rng.usize(4), rng.usize(3)),
@@ -1094,7 +1180,25 @@ fn gen_input(rng: &mut Rng, p: &Protos, spec: &Spec, sub_rows: &[Vec<usize>], th
         }
         _ => {}
     }
-    Input { version, textures, models, wmos, doodads, wmops, mcnks, sub_patterns, mfbo, mh2o, water_chunks, mtxf, mamp, mtxp, blend, invalid, top_bits }
+    // ---- edit plan for the parse -> modify -> rebuild stage
+    let mut allowed = (1u32 << SUBS.len()) - 1;
+    if version < AdtVersion::Cataclysm {
+        allowed &= !(1 << 9);
+    }
+    if version < AdtVersion::MoP {
+        allowed &= !(1 << 10);
+    }
+    let iso_all = spec.label.as_deref() == Some("iso:everything");
+    let npicks = if iso_all { SUBS.len() } else { 1 + rng.usize(6) };
+    let picks = (0..npicks)
+        .map(|k| {
+            let (sel, mode, r) = if iso_all { (k as u64, 4u8, k as u32) } else { (rng.next_u64(), rng.below(4) as u8, rng.next_u32()) };
+            EditPick { sel, mode, r, fresh: gen_mcnk(rng, p, 0, allowed, nt) }
+        })
+        .collect();
+    let top_drop = if iso_all { 0 } else { (0..TOPS.len()).filter(|_| rng.chance(1, 3)).fold(0u32, |a, b| a | 1 << b) };
+    let edit = EditPlan { picks, allowed, top_drop };
+    Input { version, textures, models, wmos, doodads, wmops, mcnks, sub_patterns, mfbo, mh2o, water_chunks, mtxf, mamp, mtxp, blend, invalid, top_bits, edit }
 }
 
 impl Input {
@@ -1377,9 +1481,192 @@ fn report_walk(c: &mut Case, w: &Walk, ver: &str, stage: &str) {
     c.count("mcnk_null_pad_records", w.n_null_pad);
     c.count("mcin_size_is_payload", w.mcin_conv_payload);
     c.count("mcin_size_is_payload_plus_header", w.mcin_conv_whole);
+    c.count("name_table_offsets_checked", w.n_name_ofs);
     for (stem, text) in &w.problems {
         c.violate(format!("{stem}|{ver}"), format!("[{stage}] {text}"), json!({"stage": stage, "version": ver}));
     }
+}
+
+/// MMID[i] / MWID[i] must address the i-th name of the list the file was written from (placements refer to names through these tables).
+/// Entries that are not the start of a name at all were already reported by the walker.
+fn check_name_tables(c: &mut Case, w: &Walk, ver: &str, stage: &str, models: &[String], wmos: &[String]) {
+    for (tab, names) in [("MMID", models), ("MWID", wmos)] {
+        let Some(res) = w.name_tables.get(tab) else { continue };
+        let mut reported = false;
+        for (i, r) in res.iter().enumerate() {
+            let (Some(r), Some(want)) = (r, names.get(i)) else { continue };
+            c.count("name_table_entries_resolved", 1);
+            if r != want && !reported {
+                reported = true;
+                c.violate(
+                    format!("name-table-offset|{tab}|resolves-to-other-name|{ver}"),
+                    format!("[{stage}] {tab}[{i}] resolves to {r:?} but name {i} of the list is {want:?}"),
+                    json!({"stage": stage, "entry": i, "resolves_to": r, "want": want}),
+                );
+            }
+        }
+    }
+}
+
+fn sub_present(m: &McnkChunk) -> u32 {
+    let f = [
+        m.heights.is_some(), m.normals.is_some(), m.layers.is_some(), m.refs.is_some(), m.alpha.is_some(), m.shadow.is_some(), m.liquid.is_some(),
+        m.vertex_colors.is_some(), m.sound_emitters.is_some(), m.vertex_lighting.is_some(), m.blend_batches.is_some(),
+    ];
+    f.iter().enumerate().fold(0, |a, (b, on)| a | (*on as u32) << b)
+}
+
+/// Apply one pick of the edit plan to a parsed chunk. The parsed header (with the offsets, sizes and counts it was read with) stays in place:
+/// those are the serializer's business. Content-bearing header fields the parser keys on are kept consistent (0x01 iff MCSH, 0x40 iff MCCV, ref counts iff MCRF).
+fn apply_edit(ch: &mut McnkChunk, pick: &EditPick, allowed: u32) -> (u32, u32) {
+    let old = sub_present(ch);
+    let bits = |mask: u32| (0..SUBS.len()).filter(|b| mask & (1 << b) != 0).collect::<Vec<usize>>();
+    let (present, absent) = (bits(old), bits(allowed & !old));
+    let drop_one = |r: u32| old & !(1 << present[r as usize % present.len()]);
+    let add_one = |r: u32| old | 1 << absent[r as usize % absent.len()];
+    let new = match pick.mode {
+        0 if !present.is_empty() => drop_one(pick.r),
+        0 => add_one(pick.r),
+        1 if !absent.is_empty() => add_one(pick.r),
+        1 => drop_one(pick.r),
+        2 => pick.r & allowed,
+        3 => old,
+        _ => old & !(1 << (pick.r as usize % SUBS.len())),
+    };
+    for b in 0..SUBS.len() {
+        let (want, had) = (new & (1 << b) != 0, old & (1 << b) != 0);
+        // a sub-chunk that stays is replaced by new contents in mode 3 and (by coin) in mode 2
+        let take = want && (!had || ((pick.mode == 3 || pick.mode == 2) && (pick.r >> (b + 11)) & 1 == 1));
+        macro_rules! ed {
+            ($f:ident) => {
+                if !want {
+                    ch.$f = None
+                } else if take {
+                    ch.$f = pick.fresh.$f.clone()
+                }
+            };
+        }
+        match SUBS[b] {
+            "MCVT" => ed!(heights),
+            "MCNR" => ed!(normals),
+            "MCLY" => ed!(layers),
+            "MCRF" => {
+                ed!(refs);
+                if !want {
+                    (ch.header.n_doodad_refs, ch.header.n_map_obj_refs) = (0, 0);
+                } else if take {
+                    (ch.header.n_doodad_refs, ch.header.n_map_obj_refs) = (pick.fresh.header.n_doodad_refs, pick.fresh.header.n_map_obj_refs);
+                }
+            }
+            "MCAL" => ed!(alpha),
+            "MCSH" => ed!(shadow),
+            "MCLQ" => ed!(liquid),
+            "MCCV" => ed!(vertex_colors),
+            "MCSE" => ed!(sound_emitters),
+            "MCLV" => ed!(vertex_lighting),
+            _ => ed!(blend_batches),
+        }
+    }
+    let mut f = ch.header.flags.value & !0x41;
+    if ch.shadow.is_some() {
+        f |= 0x01;
+    }
+    if ch.vertex_colors.is_some() {
+        f |= 0x40;
+    }
+    ch.header.flags.value = f;
+    (old, new)
+}
+
+/// (e) parse -> modify -> from_root_adt -> to_bytes -> walk -> parse: the rebuilt file must carry exactly the modified content, and its
+/// offset tables must describe the sub-chunks that are now there (not the ones the tile was parsed with).
+fn edit_stage(c: &mut Case, input: &Input, root0: &RootAdt, ver: &str) {
+    let stage = "edit";
+    let mut edited = root0.clone();
+    let n = edited.mcnk_chunks.len();
+    let mut seen = BTreeSet::new();
+    for pick in &input.edit.picks {
+        if n == 0 {
+            break;
+        }
+        let i = (pick.sel % n as u64) as usize;
+        if !seen.insert(i) {
+            continue;
+        }
+        let (old, new) = apply_edit(&mut edited.mcnk_chunks[i], pick, input.edit.allowed);
+        c.count("edit_chunks_edited", 1);
+        for (b, t) in SUBS.iter().enumerate() {
+            match (old & (1 << b) != 0, new & (1 << b) != 0) {
+                (true, false) => c.count(&format!("edit_subchunk_dropped|{t}"), 1),
+                (false, true) => c.count(&format!("edit_subchunk_added|{t}"), 1),
+                _ => {}
+            }
+        }
+    }
+    for (b, t) in TOPS.iter().enumerate() {
+        if input.edit.top_drop & (1 << b) == 0 {
+            continue;
+        }
+        let had = match *t {
+            "MFBO" => edited.flight_bounds.take().is_some(),
+            "MH2O" => edited.water_data.take().is_some(),
+            "MTXF" => edited.texture_flags.take().is_some(),
+            "MAMP" => edited.texture_amplifier.take().is_some(),
+            "MTXP" => edited.texture_params.take().is_some(),
+            _ => {
+                let h = edited.blend_mesh_headers.take().is_some();
+                edited.blend_mesh_bounds = None;
+                edited.blend_mesh_vertices = None;
+                edited.blend_mesh_indices = None;
+                h
+            }
+        };
+        if had {
+            c.count(&format!("edit_root_optional_dropped|{t}"), 1);
+        }
+    }
+    let want = content_of_root(&edited);
+    let xe = match trap(|| BuiltAdt::from_root_adt(edited.clone(), None).to_bytes()) {
+        Err(p) => {
+            c.violate(format!("edit-rebuild-panic|{}|{ver}", p.sig()), format!("[{stage}] from_root_adt/to_bytes panicked on a modified parsed tile: {}", p.msg), json!({}));
+            return;
+        }
+        Ok(Err(e)) => {
+            c.violate(format!("edit-rebuild-serialize-failed|{ver}"), format!("[{stage}] to_bytes failed on a modified parsed tile: {e}"), json!({}));
+            return;
+        }
+        Ok(Ok(b)) => b,
+    };
+    c.count("edit_rebuilds", 1);
+    let we = walk_file(&xe);
+    report_walk(c, &we, ver, stage);
+    check_name_tables(c, &we, ver, stage, &edited.models, &edited.wmos);
+    let Some(re) = parse_root(c, &xe, &we, ver, stage, "edit-rebuild-parse-failed") else { return };
+    let got = content_of_root(&re);
+    for (field, wv) in &want.top {
+        let gv = got.top.get(field).cloned().unwrap_or(Value::Null);
+        if *field == "texture_flags" && wv.is_null() && neutral_mtxf(&gv, edited.textures.len()) {
+            c.count("default_mtxf_accepted", 1);
+            c.count("fields_compared", 1);
+            continue;
+        }
+        compare_field(c, format!("edit-content|{field}"), ver, "rebuilt tile != modified parsed tile", field, None, wv, &gv);
+    }
+    c.count("fields_compared", 1);
+    if got.mcnk.len() != want.mcnk.len() {
+        c.violate(format!("edit-content|mcnk.count|{ver}"), format!("[{stage}] {} MCNK chunks in the modified tile, {} after rebuild", want.mcnk.len(), got.mcnk.len()), json!({}));
+    }
+    for (i, wf) in want.mcnk.iter().enumerate() {
+        let Some(gf) = got.mcnk.get(i) else { break };
+        for (field, wv) in wf {
+            compare_field(c, format!("edit-content|{field}"), ver, "rebuilt tile != modified parsed tile", field, Some(i), wv, gf.get(field).unwrap_or(&Value::Null));
+        }
+    }
+}
+
+/// a root chunk the serializer adds on its own with neutral values when none was supplied is not a content difference
+fn neutral_mtxf(got: &Value, ntex: usize) -> bool {
+    got.as_array().is_some_and(|a| a.len() == ntex && a.iter().all(|x| x == &json!(0)))
 }
 
 fn parse_root(c: &mut Case, bytes: &[u8], w: &Walk, ver: &str, stage: &str, sig_stem: &str) -> Option<RootAdt> {
@@ -1513,6 +1800,7 @@ fn check_case(c: &mut Case, input: &Input) {
     // ---- (c) walker on the first file
     let w0 = walk_file(&x0);
     report_walk(c, &w0, ver, "build");
+    check_name_tables(c, &w0, ver, "build", &input.models, &input.wmos);
     // ---- (a) parse and compare with the builder input
     let Some(root0) = parse_root(c, &x0, &w0, ver, "build", "parse-failed") else { return };
     c.count(&format!("detected|{ver}->{}", vname(root0.version)), 1);
@@ -1521,14 +1809,10 @@ fn check_case(c: &mut Case, input: &Input) {
     for (field, wv) in &want.top {
         let gv = prev.top.get(field).cloned().unwrap_or(Value::Null);
         // a root chunk the serializer adds on its own with neutral values when none was supplied is not a content difference
-        if *field == "texture_flags" && wv.is_null() {
-            if let Some(a) = gv.as_array() {
-                if a.len() == input.textures.len() && a.iter().all(|x| x == &json!(0)) {
-                    c.count("default_mtxf_accepted", 1);
-                    c.count("fields_compared", 1);
-                    continue;
-                }
-            }
+        if *field == "texture_flags" && wv.is_null() && neutral_mtxf(&gv, input.textures.len()) {
+            c.count("default_mtxf_accepted", 1);
+            c.count("fields_compared", 1);
+            continue;
         }
         compare_field(c, format!("parse-content|{field}"), ver, "parsed tile != builder input", field, None, wv, &gv);
     }
@@ -1548,6 +1832,8 @@ fn check_case(c: &mut Case, input: &Input) {
         c.count("filler_tiles", 1);
         c.count("filler_mcnk_parsed", prev.mcnk.len() as u64);
     }
+    // ---- (e) parse -> modify -> rebuild
+    edit_stage(c, input, &root0, ver);
     // ---- (b) parse -> from_root_adt -> to_bytes -> parse, rounds 1..4
     let mut prev_root = root0;
     let mut prev_bytes = x0;
@@ -1568,6 +1854,7 @@ fn check_case(c: &mut Case, input: &Input) {
         c.count("rounds", 1);
         let wr = walk_file(&xr);
         report_walk(c, &wr, ver, &stage);
+        check_name_tables(c, &wr, ver, &stage, &prev_root.models, &prev_root.wmos);
         if xr.len() > prev_bytes.len() {
             // attribute the growth to the chunk kinds whose byte total grew (structural, seed-independent)
             let mut kinds: Vec<String> = Vec::new();
@@ -1634,6 +1921,7 @@ fn main() {
         points.push(Spec { point: base(0, 0, 0), invalid: None, sub: None, top: Some(0), label: Some("iso:bare".into()) });
         points.push(Spec { point: base(1, 0, 0), invalid: None, sub: Some(0), top: Some(0), label: Some("iso:mcnk-empty".into()) });
         points.push(Spec { point: base(1, 1, 1), invalid: None, sub: Some(0b111), top: Some(0), label: Some("iso:names+placements".into()) });
+        points.push(Spec { point: base(1, 3, 1), invalid: None, sub: Some(0b111), top: Some(0), label: Some("iso:names-multibyte".into()) });
         for (b, name) in SUBS.iter().enumerate() {
             if (*name == "MCLV" && ver < AdtVersion::Cataclysm) || (*name == "MCBB" && ver < AdtVersion::MoP) {
                 continue;
